@@ -341,7 +341,11 @@ impl Factors {
     pub fn strip(mut self, components: &Components) -> Self {
         let wf_carriers = components.available_carriers();
         // Mantenemos factores para todos los vectores usados
-        self.wdata.retain(|f| wf_carriers.contains(&f.carrier));
+        // y los de la electricidad de red, necesarios para poder volver a leer los factores
+        self.wdata.retain(|f| {
+            wf_carriers.contains(&f.carrier)
+                || (f.carrier == Carrier::ELECTRICIDAD && f.source == Source::RED)
+        });
         // Mantenemos factores para cogeneración sólo si hay cogeneración
         let has_cogen = components.data.iter().any(|c| c.is_cogen_pr());
         self.wdata
